@@ -263,3 +263,260 @@ Definition ex_q := {| q_biotype := None; q_seqid := Some [115]; q_name := None; 
   q_attrs := None; q_on_aln := None; q_start := Some 8; q_stop := Some 20; q_partial := true |}.
 Example ex_q_hits : query_wf ex_q /\ gquery [1] [ex_row] ex_q = [ex_row].
 Proof. split; [vm_compute; reflexivity|vm_compute; reflexivity]. Qed.
+
+(** ---------- start/stop of every stored row are the extremes of its spans ---------- *)
+Lemma spans_extent s :
+  s <> [] ->
+  In (spans_min s) (coords s) /\ In (spans_max s) (coords s) /\
+  (forall x, In x (coords s) -> spans_min s <= x <= spans_max s).
+Proof.
+  intros Hne. unfold spans_min, spans_max.
+  destruct (coords s) as [|c cs] eqn:Ec.
+  - exfalso. destruct s as [|p ps]; [congruence|]. unfold coords in Ec. simpl in Ec. discriminate.
+  - split; [apply zmin_list_in|]. split; [apply zmax_list_in|].
+    intros x Hx. split; [apply zmin_list_le|apply zmax_list_ge]; exact Hx.
+Qed.
+
+Lemma sort_spans_nonempty l : l <> [] -> sort_spans l <> [].
+Proof.
+  intros H E. assert (P := sort_spans_perm l). rewrite E in P.
+  apply Permutation_nil in P. contradiction.
+Qed.
+
+Lemma gff_row_extent seqid bt nm strand attrs lines :
+  lines <> [] ->
+  let r := gff_row seqid bt nm strand attrs lines in
+  Permutation (r_spans r) (map norm_span (map (fun p => gff_coord (fst p) (snd p)) lines)) /\
+  In (r_start r) (coords (r_spans r)) /\ In (r_stop r) (coords (r_spans r)) /\
+  (forall x, In x (coords (r_spans r)) -> r_start r <= x <= r_stop r).
+Proof.
+  intros Hne r. subst r. unfold gff_row; cbn [r_spans r_start r_stop].
+  split; [apply norm_spans_perm|]. apply spans_extent.
+  unfold norm_spans. apply sort_spans_nonempty. destruct lines; [congruence|discriminate].
+Qed.
+
+(** ---------- GenBank locations ---------- *)
+Lemma gb_segment a b :
+  1 <= a <= b ->
+  loc_spans (LSeg a b) = [(a - 1, b)] /\ loc_strand (LSeg a b) = Some [43] /\ b - (a - 1) = b - a + 1.
+Proof. intros H. unfold loc_spans, loc_strand; simpl. repeat split; try lia. repeat f_equal; lia. Qed.
+
+Lemma gb_point a : loc_spans (LPoint a) = [(a - 1, a)] /\ loc_strand (LPoint a) = Some [43].
+Proof. unfold loc_spans, loc_strand; simpl. split; [repeat f_equal; lia|reflexivity]. Qed.
+
+Lemma gb_complement_segment a b :
+  loc_spans (LCompl [LSeg a b]) = loc_spans (LSeg a b) /\ loc_strand (LCompl [LSeg a b]) = Some [45].
+Proof. unfold loc_spans, loc_strand; simpl. split; reflexivity. Qed.
+
+Definition seg_of (p : Z * Z) : loc := LSeg (fst p) (snd p).
+Definition seg_span (p : Z * Z) : Z * Z := (fst p - 1, snd p).
+
+Lemma loc_flat_join_segs ps :
+  loc_flat (LJoin (map seg_of ps)) = map (fun p => (fst p - 1, snd p - 1, 1)) ps.
+Proof. induction ps as [|p ps IH]; simpl; [reflexivity|]. simpl in IH. rewrite IH. reflexivity. Qed.
+
+(** join(a1..b1, ..., an..bn): the spans are the converted segments, sorted; strand + *)
+Lemma gb_join_segments ps :
+  ps <> [] ->
+  loc_spans (LJoin (map seg_of ps)) = sort_spans (map seg_span ps) /\
+  loc_strand (LJoin (map seg_of ps)) = Some [43].
+Proof.
+  intros Hne. unfold loc_spans, loc_strand. rewrite loc_flat_join_segs. rewrite !map_map. split.
+  - f_equal. apply map_ext. intros p. unfold seg_span; simpl. f_equal. lia.
+  - destruct ps as [|p ps]; [congruence|]. simpl.
+    replace (forallb (fun y => y =? 1) (map (fun _ : Z * Z => 1) ps)) with true; [reflexivity|].
+    clear. induction ps as [|q ps IH]; simpl; [reflexivity|exact IH].
+Qed.
+
+(** complement(join(...)): the same positions (as a multiset, and sorted), strand - *)
+Lemma gb_complement_join_segments ps :
+  ps <> [] ->
+  Permutation (loc_spans (LCompl [LJoin (map seg_of ps)])) (map seg_span ps) /\
+  Sorted span_le (loc_spans (LCompl [LJoin (map seg_of ps)])) /\
+  loc_strand (LCompl [LJoin (map seg_of ps)]) = Some [45].
+Proof.
+  intros Hne.
+  assert (Hflat : loc_flat (LCompl [LJoin (map seg_of ps)]) = map (fun p => (fst p - 1, snd p - 1, -1)) (rev ps)).
+  { change (loc_flat (LCompl [LJoin (map seg_of ps)]))
+      with (map (fun p => (fst (fst p), snd (fst p), - snd p)) (rev (loc_flat (LJoin (map seg_of ps)) ++ []))).
+    rewrite app_nil_r, loc_flat_join_segs, <- map_rev, map_map. apply map_ext. intros p. reflexivity. }
+  unfold loc_spans, loc_strand. rewrite Hflat. rewrite !map_map. split; [|split].
+  - eapply perm_trans; [apply sort_spans_perm|].
+    eapply perm_trans; [|apply Permutation_map; apply Permutation_sym; apply Permutation_rev].
+    apply Permutation_refl'. apply map_ext. intros p. unfold seg_span; simpl. f_equal. lia.
+  - apply sort_spans_sorted.
+  - destruct (rev ps) as [|p qs] eqn:E.
+    + exfalso. apply Hne. rewrite <- (rev_involutive ps), E. reflexivity.
+    + simpl. replace (forallb (fun y => y =? -1) (map (fun _ : Z * Z => -1) qs)) with true; [reflexivity|].
+      clear. induction qs as [|q qs IH]; simpl; [reflexivity|exact IH].
+Qed.
+
+Lemma gb_row_extent seqid bt nm x :
+  loc_flat x <> [] ->
+  let r := gb_row seqid bt nm x in
+  In (r_start r) (coords (r_spans r)) /\ In (r_stop r) (coords (r_spans r)) /\
+  (forall y, In y (coords (r_spans r)) -> r_start r <= y <= r_stop r).
+Proof.
+  intros Hne r. subst r. unfold gb_row; cbn [r_spans r_start r_stop].
+  apply spans_extent. unfold loc_spans. apply sort_spans_nonempty.
+  destruct (loc_flat x); [congruence|discriminate].
+Qed.
+
+(** ---------- tables partition the record list ---------- *)
+Definition tables_ok (tables : list Z) (db : list row) : Prop :=
+  NoDup tables /\ forall r, In r db -> In (r_table r) tables.
+
+Lemma partition_perm {A} (f : A -> bool) l : Permutation l (filter f l ++ filter (fun x => negb (f x)) l).
+Proof.
+  induction l as [|a l IH]; simpl; [constructor|].
+  destruct (f a); simpl.
+  - constructor. exact IH.
+  - apply Permutation_cons_app. exact IH.
+Qed.
+
+Lemma rows_of_other t t' db : t <> t' -> rows_of t (rows_of t' db) = [].
+Proof.
+  intros H. unfold rows_of. induction db as [|r db IH]; simpl; [reflexivity|].
+  destruct (r_table r =? t') eqn:E; simpl; [|exact IH].
+  destruct (r_table r =? t) eqn:E2; [lia|exact IH].
+Qed.
+
+Lemma rows_of_same t db : rows_of t (rows_of t db) = rows_of t db.
+Proof.
+  unfold rows_of. induction db as [|r db IH]; simpl; [reflexivity|].
+  destruct (r_table r =? t) eqn:E; simpl; [rewrite E, IH; reflexivity|exact IH].
+Qed.
+
+Lemma rows_of_app t a b : rows_of t (a ++ b) = rows_of t a ++ rows_of t b.
+Proof. unfold rows_of. apply filter_app. Qed.
+
+(** the rows of table [t] in the table-by-table listing are the rows of table [t] *)
+Lemma rows_of_records tables : forall t db,
+  NoDup tables ->
+  rows_of t (records_in_tables tables db) = if existsb (fun t' => t' =? t) tables then rows_of t db else [].
+Proof.
+  induction tables as [|t' ts IH]; intros t db Hnd; simpl; [reflexivity|].
+  inversion Hnd as [|? ? Hn Hts]; subst.
+  unfold records_in_tables in *. simpl. rewrite rows_of_app, IH by exact Hts.
+  destruct (t' =? t) eqn:E; simpl.
+  - assert (t' = t) by lia. subst t'. rewrite rows_of_same.
+    replace (existsb (fun t' => t' =? t) ts) with false; [apply app_nil_r|].
+    symmetry. apply not_true_is_false. intros Hex. apply existsb_exists in Hex.
+    destruct Hex as [u [Hu Eu]]. assert (u = t) by lia. subst u. contradiction.
+  - rewrite rows_of_other by lia. reflexivity.
+Qed.
+
+Lemma flat_map_ext_in' {A B} (f g : A -> list B) l :
+  (forall x, In x l -> f x = g x) -> flat_map f l = flat_map g l.
+Proof.
+  induction l as [|a l IH]; simpl; intros H; [reflexivity|].
+  rewrite (H a (or_introl eq_refl)), IH; [reflexivity|]. intros x Hx. apply H. right. exact Hx.
+Qed.
+
+Lemma filter_filter_and {A} (f g : A -> bool) l :
+  filter f (filter g l) = filter (fun x => f x && g x) l.
+Proof.
+  induction l as [|a l IH]; simpl; [reflexivity|].
+  destruct (g a); simpl; [destruct (f a); simpl; rewrite IH; reflexivity|].
+  rewrite andb_false_r. exact IH.
+Qed.
+
+Lemma records_in_tables_perm tables : forall db,
+  tables_ok tables db -> Permutation (records_in_tables tables db) db.
+Proof.
+  induction tables as [|t ts IH]; intros db [Hnd Hin].
+  - destruct db as [|r db]; [constructor|]. exfalso. exact (Hin r (or_introl eq_refl)).
+  - inversion Hnd as [|? ? Hn Hts]; subst.
+    unfold records_in_tables in *. simpl.
+    set (rest := filter (fun r => negb (r_table r =? t)) db).
+    assert (Hrest : flat_map (fun t0 => rows_of t0 db) ts = flat_map (fun t0 => rows_of t0 rest) ts).
+    { apply flat_map_ext_in'. intros u Hu. unfold rows_of, rest. rewrite filter_filter_and.
+      apply filter_ext_in'. intros r _. destruct (r_table r =? u) eqn:E1; simpl; [|reflexivity].
+      destruct (r_table r =? t) eqn:E2; simpl; [|reflexivity].
+      exfalso. assert (u = t) by lia. subst u. contradiction. }
+    rewrite Hrest.
+    eapply perm_trans; [|apply Permutation_sym; apply (partition_perm (fun r => r_table r =? t) db)].
+    apply Permutation_app_head. apply IH. split; [exact Hts|].
+    intros r Hr. unfold rest in Hr. apply filter_In in Hr. destruct Hr as [Hr Ht].
+    destruct (Hin r Hr) as [E|E]; [|exact E]. exfalso. subst t. rewrite Z.eqb_refl in Ht. discriminate.
+Qed.
+
+(** ---------- to_rich_dict / from_dict ---------- *)
+Lemma from_to_rich tables db : from_rich (to_rich tables db) = records_in_tables tables db.
+Proof.
+  unfold from_rich, to_rich, records_in_tables.
+  induction tables as [|t ts IH]; simpl; [reflexivity|]. rewrite IH. reflexivity.
+Qed.
+
+Lemma rich_roundtrip_multiset tables db :
+  tables_ok tables db -> Permutation (from_rich (to_rich tables db)) db.
+Proof. intros H. rewrite from_to_rich. apply records_in_tables_perm. exact H. Qed.
+
+Lemma rows_of_records_ok tables db t :
+  tables_ok tables db -> rows_of t (records_in_tables tables db) = rows_of t db.
+Proof.
+  intros [Hnd Hin]. rewrite rows_of_records by exact Hnd.
+  destruct (existsb (fun t' => t' =? t) tables) eqn:E; [reflexivity|].
+  symmetry. unfold rows_of. induction db as [|r db IH]; simpl; [reflexivity|].
+  destruct (r_table r =? t) eqn:E2.
+  - exfalso. assert (In (r_table r) tables) by (apply Hin; left; reflexivity).
+    assert (existsb (fun t' => t' =? t) tables = true); [|congruence].
+    apply existsb_exists. exists (r_table r). split; assumption.
+  - apply IH. intros r' Hr'. apply Hin. right. exact Hr'.
+Qed.
+
+(** every query gives the same answer (same order even) on the round-tripped db *)
+Lemma rich_roundtrip_query tables db q :
+  tables_ok tables db ->
+  gquery tables (from_rich (to_rich tables db)) q = gquery tables db q /\
+  gcount tables (from_rich (to_rich tables db)) q = gcount tables db q.
+Proof.
+  intros H. rewrite from_to_rich. unfold gquery, gcount, query_db, count_db. split.
+  - apply flat_map_ext. intros t. rewrite rows_of_records_ok by exact H. reflexivity.
+  - f_equal. apply flat_map_ext. intros t. rewrite rows_of_records_ok by exact H. reflexivity.
+Qed.
+
+(** ---------- update / union table by table ---------- *)
+Lemma update_tw_multiset otables self other :
+  tables_ok otables other -> Permutation (db_update_tw otables self other) (self ++ other).
+Proof.
+  intros H. unfold db_update_tw. apply Permutation_app_head.
+  apply (records_in_tables_perm otables other H).
+Qed.
+
+Lemma union_tw_multiset stables otables a b :
+  tables_ok stables a -> tables_ok otables b ->
+  Permutation (db_union_tw stables otables a b) (a ++ b).
+Proof.
+  intros Ha Hb. unfold db_union_tw.
+  eapply perm_trans; [apply update_tw_multiset; exact Hb|].
+  apply Permutation_app_tail. apply (update_tw_multiset stables [] a Ha).
+Qed.
+
+(** ---------- subset ---------- *)
+Lemma Permutation_filter' {A} (f : A -> bool) l l' :
+  Permutation l l' -> Permutation (filter f l) (filter f l').
+Proof.
+  induction 1; simpl.
+  - constructor.
+  - destruct (f x); [constructor|]; assumption.
+  - destruct (f x), (f y); try apply Permutation_refl. apply perm_swap.
+  - eapply perm_trans; eassumption.
+Qed.
+
+(** subset(...) holds exactly the records of the whole db (all tables) that a scan selects *)
+Lemma subset_multiset tables db q :
+  tables_ok tables db -> Forall row_wf db -> query_wf q -> q_on_aln q <> Some true ->
+  Permutation (gquery tables db q) (filter (spec_match q) db).
+Proof.
+  intros Hok Hwf Hq Hon. rewrite query_is_scan by assumption. unfold scan.
+  replace (tables_for q tables) with tables.
+  - apply Permutation_filter'. apply records_in_tables_perm. exact Hok.
+  - unfold tables_for. destruct (q_on_aln q) as [[|]|]; try reflexivity. congruence.
+Qed.
+
+Example ex_tables_ok : tables_ok [0; 1] [ex_row; gb_row [115] [103] [110] (LCompl [LJoin [LSeg 3 10; LSeg 20 25]])].
+Proof.
+  split; [repeat constructor; simpl; intuition lia|].
+  intros r [<-|[<-|[]]]; vm_compute; tauto.
+Qed.
